@@ -54,7 +54,7 @@ def run_bundles(st, res, bundles, pid, what="component", check_model=True, fmt="
             continue
         reqs.append(progen.compile_request(b, fmt, anon=r["anon_before"]))
         meta.append(("compile", tag, b, r, inp))
-        if r["ok"]:
+        if r["ok"] and fmt == "pil":
             rq = progen.compile_request(b, fmt, anon=0)
             rq["op"] = "src-denote"
             reqs.append(rq)
